@@ -10,8 +10,8 @@
 (*                 or by -simulate; the history is emitted when it reaches Depth.                    *)
 (* Mode "step"   : the initial states range over all subsets for slot 1; one mutation or query call  *)
 (*                 (C02/C03/C15/C16); every transition is emitted as <<Build 1, call>>.              *)
-(* Mode "agg"    : all triples of subsets (slots 1..3) and one aggregate call over every list of     *)
-(*                 length 0..MaxList of slots 1..4 (slot 4 stays empty; duplicates allowed) (C11).   *)
+(* Mode "agg"    : all pairs of subsets (slots 1,2; slot 3 is full, slot 4 empty) and one aggregate   *)
+(*                 call over every list of length 0..MaxList of slots 1..4 (duplicates allowed) (C11).*)
 EXTENDS RoaringSet, TLC, Json, SequencesExt
 
 CONSTANTS Mode, Depth, Struct, MaxList
@@ -107,7 +107,7 @@ Init ==
   /\ CASE Mode = "pairs" -> \E S1, S2 \in SUBSET A : content = [Empty EXCEPT ![1] = S1, ![2] = S2]
        [] Mode \in {"step", "serial"} -> \E S1 \in SUBSET A : content = [Empty EXCEPT ![1] = S1]
        [] Mode = "legal" -> content = Empty
-       [] Mode = "agg" -> \E S1, S2, S3 \in SUBSET A : content = [Empty EXCEPT ![1] = S1, ![2] = S2, ![3] = S3]
+       [] Mode = "agg" -> \E S1, S2 \in SUBSET A : content = [Empty EXCEPT ![1] = S1, ![2] = S2, ![3] = A]
        [] Mode = "hist" -> content = Empty
 
 Calls ==
